@@ -37,6 +37,9 @@ type Config struct {
 	NumCPU    int    `json:"num_cpu"`             // what runtime.NumCPU() reports to the server
 	MapPolicy string `json:"map_policy"`          // sorted | reversed | random
 	KeepTrace bool   `json:"keep_trace,omitempty"`
+	// Knobs override tuning constants of the server (e.g. "lru": capacity of the live-analysis
+	// cache); absent or 0 = the constant in the source.
+	Knobs map[string]int `json:"knobs,omitempty"`
 }
 
 // G is one server goroutine known to the scheduler.
@@ -631,6 +634,20 @@ func WaitGroupWait(wg *sync.WaitGroup, site string) {
 	Yield("wgwait@" + site)
 	wg.Wait()
 	Yield("wgdone@" + site)
+}
+
+// Knob returns a per-run override of a tuning constant (or def).
+func Knob(name string, def int) int {
+	if !On {
+		return def
+	}
+	if v := cfg.Knobs[name]; v > 0 {
+		if probes != nil {
+			Probe("knob." + name)
+		}
+		return v
+	}
+	return def
 }
 
 // NumCPU replaces runtime.NumCPU.
